@@ -73,8 +73,7 @@ CASES = [
       ("OBJECTIVES_FOR_EQUALIZED_ODDS = {\n    \"accuracy_score\",\n    \"balanced_accuracy_score\",\n}", "OBJECTIVES_FOR_EQUALIZED_ODDS = {\"balanced_accuracy_score\", \"accuracy_score\"}")),
     R("r-to-dict-reordered", TO, "two entries of SIMPLE_CONSTRAINTS swapped",
       ("    \"selection_rate_parity\": \"selection_rate\",\n    \"demographic_parity\": \"selection_rate\",\n",
-       "    \"demographic_parity\": \"selection_rate\",\n    \"selection_rate_parity\": \"selection_rate\",\n"),
-      expect="changed", why="simpleConstraints is emitted in source order (dict order is observable through iteration)"),
+       "    \"demographic_parity\": \"selection_rate\",\n    \"selection_rate_parity\": \"selection_rate\",\n")),
     R("r-degenerate-spellings", TCU, "degenerate guard: De Morgan, constants on the left, message through a temporary",
       (DEGEN + "        raise ValueError(DEGENERATE_LABELS_ERROR_MESSAGE.format(sensitive_feature_value))\n",
        "    if not (0 != n_positive and 0 != n_negative):\n        msg = DEGENERATE_LABELS_ERROR_MESSAGE.format(sensitive_feature_value)\n        raise ValueError(msg)\n"),
